@@ -200,6 +200,9 @@ class Mode:
             vg, ve = S.expand(g), S.expand(e)
             ok = alg.v_equal(vg, ve)
             if ok:
+                xc = self._crosscheck(g, e)
+                if xc is not None:
+                    return self._rec(name, "engine-disagreement", "polyid", time.time() - t, detail=xc)
                 return self._rec(name, "discharged", "polyid", time.time() - t)
             ex = getattr(self, "explorer", None)
             if ex is not None and ex.pc:
@@ -222,6 +225,45 @@ class Mode:
         if scale is not None:
             return self._rec(name, "value", self.kind, 0.0, got=_num(got), exp=_num(exp), scale=_num(scale))
         return self._rec(name, "value", self.kind, 0.0, got=_num(got), exp=_num(exp))
+
+    def _crosscheck(self, g, e):
+        """independent second opinion on a sample of the equalities polyid accepts: both expression DAGs are
+        evaluated numerically at 40 digits at a random rational point WITHOUT going through the normal form"""
+        self._xc_count = getattr(self, "_xc_count", 0) + 1
+        n = self._xc_count
+        if not (n <= 40 or n % 50 == 0) or getattr(self, "_xc_off", False):
+            return None
+        from . import alg, fields, sym as S
+
+        C = alg.ctx()
+        try:
+            if getattr(self, "_xc_env", None) is None or self._xc_nsym != len(C.names):
+                rng = random.Random(12345)
+                F = fields.MpField({}, 40)
+                env = {}
+                for i, name in enumerate(C.names):
+                    k = C.kinds[i]
+                    if name == "pi":
+                        env[name] = F.pi
+                    elif k in ("real", "opq") and i not in C.boysinfo and not any(t == i for t, _ in C.logs):
+                        env[name] = F.num(Fraction(rng.randint(-250, 250), 97))
+                    elif k == "pos":
+                        env[name] = F.num(Fraction(rng.randint(20, 300), 89))
+                if any(alg.evalv(alg.Value(pl), {C.byname[k]: v for k, v in env.items() if k in C.byname}, F) <= 0 for pl in C.defs.values()):
+                    # defined atoms must be positive: bias the draw
+                    for i, name in enumerate(C.names):
+                        if C.kinds[i] == "pos":
+                            env[name] = F.num(Fraction(rng.randint(20, 300), 89)) * (5 if name in ("zeta", "eta", "sigma") else 1)
+                self._xc_env, self._xc_F, self._xc_nsym, self._xc_memo = env, F, len(C.names), {}
+            a = S.evalnode(g, self._xc_env, self._xc_F, self._xc_memo)
+            b = S.evalnode(e, self._xc_env, self._xc_F, self._xc_memo)
+            self._xc_done = getattr(self, "_xc_done", 0) + 1
+            scale = max(abs(a), abs(b), 1)
+            if abs(a - b) > scale * self._xc_F.num(Fraction(1, 10**25)):
+                return "normal forms equal but the expressions evaluate to %s and %s at a random point" % (_num(a), _num(b))
+        except (ZeroDivisionError, ValueError, KeyError, TypeError, alg.Undecided, OverflowError):
+            return None
+        return None
 
     def true(self, name, cond, detail="", backend="run"):
         if self.wanted is not None and _nopath(name) != _nopath(self.wanted) and not self.symbolic:
@@ -548,6 +590,7 @@ def run_task(ref, shape, kind="sym", env=None, wanted=None, sample_seed=None):
         if sample_seed is not None:
             rec["env"] = {k: str(v) for k, v in M.env.items()}
         rec["nsym"] = len(alg.ctx().names) if kind == "sym" else 0
+        rec["crosschecked"] = getattr(M, "_xc_done", 0)
         if kind == "sym":
             rec["side"] = sorted({k for k, _ in alg.ctx().side})
     except Exception as e:  # noqa
@@ -870,6 +913,8 @@ def summarize(check, tier, seed, records, wall, extra_bounded=None):
                     samples.append(full)
             elif r["status"] == "failed":
                 failed.append((full, rec, r))
+            elif r["status"] == "engine-disagreement":
+                crashes.append({"harness": rec["harness"], "shape": rec["shape"], "error": "ENGINE DISAGREEMENT on %s: %s" % (full, r.get("detail")), "trace": ""})
             else:
                 undecided.append({"name": full, "detail": r.get("detail")})
     violations = []
@@ -954,6 +999,7 @@ def summarize(check, tier, seed, records, wall, extra_bounded=None):
             "undecided": len(undecided),
             "checker_cmd": "./vcheck %s --tier %s" % (prop, tier),
             "functions_under_contract": check.functions,
+            "equalities_cross_checked_numerically": sum(r.get("crosschecked", 0) for r in records),
             "shapes_run": len(records),
             "sym_tasks": sum(1 for r in records if r.get("kind") != "float"),
             "tasks": [{"harness": r["harness"], "shape": r["shape"], "obligations": len(r["results"]),
